@@ -143,6 +143,16 @@ PROPS = {
         cases=[('req', 300, 5000, []), ('wire', 150, 2000, [])],
         oracle='c11',
     ),
+    'C19': dict(
+        title='the validity check accepts only messages that are safe to serialise',
+        modules=['Pbc.Props.C19', 'Pbc.Props.C02'],
+        theorems=['Pbc.Props.C19.safe_of_check', 'Pbc.Props.C19.safeSlot_of_check', 'Pbc.Props.C19.safeElems_of_check',
+                  'Pbc.Props.C19.defMsg_rejected', 'Pbc.Props.C19.defSingle_rejected', 'Pbc.Props.C19.defElems_rejected',
+                  'Pbc.Props.C02.packMsg_length'],
+        refine=[],
+        cases=[('defect', 400, 6000, [])],
+        oracle='c19',
+    ),
     'C18': dict(
         title='the append buffer holds exactly what was appended, for any history',
         modules=['Pbc.Props.C18', 'Pbc.Props.C02'],
